@@ -29,6 +29,7 @@ func C12(p *core.Program, r *core.Report) {
 	r.Assumptions = append(r.Assumptions, "bufio.Writer.Flush and net.Conn.Write report a broken connection as an error (operating system / library behaviour)")
 
 	checkMTCP(p, r)
+	checkSendsOnClosableChannels(p, r, mtcpPkg)
 	r.Analysed["error_returning_functions_checked"] = checkErrorsNotSwallowedIn(p, r, mtcpPkg, bbcPkg)
 	checkLoopVarCapture(p, r)
 	checkBBC(p, r)
@@ -395,6 +396,95 @@ func checkBBCExpiry(p *core.Program, r *core.Report) {
 	r.Min("removals from Connector.transmissions", 1)
 	conn := p.Func(bbcPkg, "Connector", "handleIncomingFragment")
 	r.Check(ok, "bbc/incomplete-transmission-expiry", "an incomplete incoming transmission is given up after some time (a removal from Connector.transmissions is reachable from code driven by a timer): the loss of the last fragment of a train can only be noticed by a timeout", p.Pos(conn.Pos()), "", "entries of Connector.transmissions are removed only when a further fragment of the same transmission arrives (finished or out of sequence): if the last fragment is lost the receiver never broadcasts a failure fragment, the sender's Send has returned nil, the bundle is silently gone and the partial transmission stays for ever")
+}
+
+// checkSendsOnClosableChannels: a data channel that the adapter closes when it is stopped (close(x.reportChan))
+// can be closed while goroutines that were started earlier (one per accepted connection, a Send in progress) are
+// still about to send on it. A send on a closed channel panics; in a goroutine without recover that ends the whole
+// process. Every send on such a channel outside the goroutine that closes it must therefore lie in a function whose
+// deferred closure calls recover() (the idiom of this repository for per-connection goroutines).
+func checkSendsOnClosableChannels(p *core.Program, r *core.Report, pkgRel string) {
+	pkg := p.Pkg(pkgRel)
+	closedIn := map[string]map[*ssa.Function]bool{}
+	var fns []*ssa.Function
+	for _, fn := range p.RepoFuncs() {
+		if fn.Pkg != pkg {
+			continue
+		}
+		fns = append(fns, fn)
+		core.EachInstr(fn, func(in ssa.Instruction) {
+			c, ok := in.(*ssa.Call)
+			if !ok {
+				return
+			}
+			if b, ok := c.Common().Value.(*ssa.Builtin); ok && b.Name() == "close" && !isSignalChan(c.Common().Args[0]) {
+				if f := ownChanField(c.Common().Args[0]); f != "" {
+					if closedIn[f] == nil {
+						closedIn[f] = map[*ssa.Function]bool{}
+					}
+					closedIn[f][topFunc(fn)] = true
+				}
+			}
+		})
+	}
+	hasRecover := func(fn *ssa.Function) bool {
+		found := false
+		core.EachInstr(fn, func(in ssa.Instruction) {
+			d, ok := in.(*ssa.Defer)
+			if !ok {
+				return
+			}
+			if mc, ok := d.Call.Value.(*ssa.MakeClosure); ok {
+				core.EachInstrDeep(mc.Fn.(*ssa.Function), func(_ *ssa.Function, i2 ssa.Instruction) {
+					if c, ok := i2.(*ssa.Call); ok {
+						if b, ok := c.Common().Value.(*ssa.Builtin); ok && b.Name() == "recover" {
+							found = true
+						}
+					}
+				})
+			}
+		})
+		return found
+	}
+	n := 0
+	for _, fn := range fns {
+		core.EachInstr(fn, func(in ssa.Instruction) {
+			var ch ssa.Value
+			switch x := in.(type) {
+			case *ssa.Send:
+				ch = x.Chan
+			case *ssa.Select:
+				for _, st := range x.States {
+					if st.Dir == types.SendOnly && ownChanField(st.Chan) != "" && closedIn[ownChanField(st.Chan)] != nil {
+						ch = st.Chan
+					}
+				}
+			}
+			if ch == nil {
+				return
+			}
+			f := ownChanField(ch)
+			if f == "" || closedIn[f] == nil {
+				return
+			}
+			n++
+			top := topFunc(fn)
+			// the closing goroutine itself (and small helpers only it calls) cannot race with its own close
+			sameGoroutine := closedIn[f][top]
+			if !sameGoroutine {
+				for closer := range closedIn[f] {
+					for _, h := range core.WithHelpers(closer, 12) {
+						if h == top {
+							sameGoroutine = true
+						}
+					}
+				}
+			}
+			ok := sameGoroutine || hasRecover(top) || (fn != top && hasRecover(fn))
+			r.Check(ok, fmt.Sprintf("closable-channel/%s/%s<-", fname(fn), f), "a send on a channel that the adapter closes when it stops happens either in the closing goroutine or in a function whose deferred closure recovers (a connection that outlives Close() must not bring the process down with 'send on closed channel')", p.Pos(in.Pos()), "", "send on "+f+", which "+pkgRel+" closes elsewhere, in a goroutine without recover()")
+		})
+	}
+	r.Count("sends on closable channels in "+pkgRel, n)
 }
 
 func checkBBC(p *core.Program, r *core.Report) {
